@@ -183,7 +183,12 @@ func verifC09_Step() {
 	}
 	verifAssert(ok == (tp < M), "admitted-iff-a-permit-is-free-within-the-timeout-horizon")
 	if !ok {
-		verifAssert(int64(rl.tokens) == k && int64(rl.cycle) == c, "rejection-leaves-the-state-unchanged")
+		adv := int64(rl.cycle) - c
+		e := k - adv*int64(L)
+		if e < 0 {
+			e = 0
+		}
+		verifAssert(adv >= 0 && adv <= delta && int64(rl.tokens) == e, "rejection-leaves-the-reservations-unchanged")
 		verifCover("rejected")
 		return
 	}
@@ -259,7 +264,18 @@ func verifC09_MultiStep() {
 		verifAssert(int64(rl.tokens[1]) <= int64(L2)-1+maxPacket, "bytes-exceed-bytesRate-by-less-than-one-packet")
 		verifCover("admitted")
 	} else {
-		verifAssert(int64(rl.tokens[0]) == k1 && int64(rl.tokens[1]) == k2, "rejection-leaves-the-state-unchanged")
+		// a rejection reserves nothing: the state stands for the same reservations as before
+		// (left as it was, or re-based to a later cycle with the elapsed periods refilled)
+		adv := int64(rl.cycle) - c
+		verifAssert(adv >= 0 && adv <= delta, "rejection-leaves-the-reservations-unchanged")
+		e1, e2 := k1-adv*int64(L1), k2-adv*int64(L2)
+		if e1 < 0 {
+			e1 = 0
+		}
+		if e2 < 0 {
+			e2 = 0
+		}
+		verifAssert(int64(rl.tokens[0]) == e1 && int64(rl.tokens[1]) == e2, "rejection-leaves-the-reservations-unchanged")
 		verifCover("rejected")
 	}
 }
@@ -301,7 +317,12 @@ func verifC09_StepN() {
 			verifCover("packet-larger-than-the-remaining-budget-admitted")
 		}
 	} else {
-		verifAssert(int64(rl.tokens) == k && int64(rl.cycle) == c, "rejection-leaves-the-state-unchanged")
+		adv := int64(rl.cycle) - c
+		e := k - adv*int64(L)
+		if e < 0 {
+			e = 0
+		}
+		verifAssert(adv >= 0 && adv <= delta && int64(rl.tokens) == e, "rejection-leaves-the-reservations-unchanged")
 		verifCover("rejected")
 	}
 }
